@@ -79,6 +79,59 @@ class _LatticeOverride:
         return False
 
 
+class _LatticeIdealSpy:
+    """observe, inside this worker process only, every LatticeIdeal.compute_basis() call: the lattice rows and
+    symbols it was given and the generator equations it builds (those handed to groebner, or the returned set when
+    no inverse symbol is needed).  Used for the correspondence with the Gallina model LatticeIdealModel.generators."""
+
+    def __init__(self):
+        self.calls = []
+
+    def __enter__(self):
+        import invariants.lattice_ideal as li
+        self.li = li
+        self.orig = li.LatticeIdeal.compute_basis
+        spy = self
+
+        def compute_basis(obj):
+            cap = {}
+            og = li.groebner
+
+            def g(eqs, *syms, **kw):
+                cap["eqs"] = list(eqs)
+                return og(eqs, *syms, **kw)
+
+            li.groebner = g
+            try:
+                res = spy.orig(obj)
+            finally:
+                li.groebner = og
+            eqs = cap.get("eqs", list(res))
+            syms = list(obj.symbols)
+            inv = []
+            for j, x in enumerate(syms):
+                inv.append(obj.inverse_symbols.get(x, sp.Symbol(f"__unused_inverse_{j}")))
+            known = set(syms) | set(inv)
+            polys = []
+            for e in eqs:
+                if sp.sympify(e).free_symbols - known:
+                    polys.append(None)
+                    continue
+                P = sp.Poly(sp.expand(e), *(syms + inv), domain="QQ")
+                polys.append([[f"{sp.Rational(c).p}/{sp.Rational(c).q}", [int(t) for t in mon]] for mon, c in P.terms()])
+            spy.calls.append({"rows": [[int(t) for t in r] for r in obj.lattice_basis], "k": len(syms),
+                              "equations": polys, "equations_str": sorted(str(e) for e in eqs),
+                              "used_inverses": sorted(syms.index(x) for x in obj.inverse_symbols)})
+            return res
+
+        li.LatticeIdeal.compute_basis = compute_basis
+        return self
+
+    def __exit__(self, *a):
+        self.li.LatticeIdeal.compute_basis = self.orig
+        return False
+
+
 def _basis_out(basis, names):
     polys = [_poly_json(b, names) for b in basis]
     return {"basis": polys, "basis_str": sorted(str(b) for b in basis),
@@ -91,7 +144,7 @@ def task_invariant_ideal(task):
     from invariants.invariant_ideal import InvariantIdeal
     n, cfs = _closed_forms(task)
     t0 = time.time()
-    with _LatticeOverride(task.get("lattice_override")):
+    with _LatticeOverride(task.get("lattice_override")), _LatticeIdealSpy() as lspy:
         ideal = InvariantIdeal(cfs)
         bases = [str(k) for k in ideal.base_to_symbol.keys()]
         basis = list(ideal.compute_basis())
@@ -104,7 +157,8 @@ def task_invariant_ideal(task):
         basis = [sp.expand(sp.sympify(b).subs(pt)) for b in basis]
         basis = [b for b in basis if b != 0]
     out = _basis_out(basis, names)
-    out.update({"exp_bases": bases, "seconds": round(time.time() - t0, 3), "basis_symbolic_str": symbolic})
+    out.update({"exp_bases": bases, "seconds": round(time.time() - t0, 3), "basis_symbolic_str": symbolic,
+                "lattice_ideal_calls": lspy.calls})
     return out
 
 
